@@ -109,6 +109,17 @@ def dynamic_foreach_histories(ck, tier):
                 self.o = vsc.rand_list_t(E())
                 self.o.append(E())
                 self.o.append(E())
+                self.r = vsc.randsz_list_t(vsc.uint8_t())
+
+            @vsc.constraint
+            def rsize(self):
+                self.r.size >= 1
+                self.r.size <= 8
+
+            @vsc.dynamic_constraint
+            def rsmall(self):
+                with vsc.foreach(self.r, idx=True) as i:
+                    self.r[i] < 10
 
             @vsc.dynamic_constraint
             def small(self):
@@ -132,11 +143,19 @@ def dynamic_foreach_histories(ck, tier):
                 with common.quiet():
                     if kind == "plain":
                         p.randomize()
-                    else:
+                    elif kind == "dyn":
                         with p.randomize_with() as it:
                             it.small()
                             it.osmall()
-                return ["ok", kind, [int(v) for v in p.l], [int(e.x) for e in p.o]]
+                            it.rsmall()
+                    else:
+                        # the foreach written in the inline block itself, over a list of random size
+                        with p.randomize_with() as it:
+                            it.small()
+                            it.osmall()
+                            with vsc.foreach(it.r, idx=True) as i:
+                                it.r[i] < 10
+                return ["ok", kind, [int(v) for v in p.l], [int(e.x) for e in p.o], [int(v) for v in p.r]]
             except Exception as ex:
                 return ["raised", kind, type(ex).__name__]
         if early:
@@ -149,7 +168,7 @@ def dynamic_foreach_histories(ck, tier):
                 p.o.append(E())
                 p.l.append(0)
         for k, sd in enumerate(seeds[1:]):
-            out.append(call("dyn" if k % 2 == 0 else "plain", sd))
+            out.append(call(["dyn", "plain", "inl"][k % 3], sd))
         return out
     n = 60 if tier == "thorough" else 4
     for rnd in range(n):
@@ -163,13 +182,13 @@ def dynamic_foreach_histories(ck, tier):
                 if r[0] != "ok":
                     ck.oracle_fail("dynamic-foreach:exception", case, r, "a normal return (the calls are satisfiable)")
                     break
-                if r[1] == "dyn" and (any(v >= 10 for v in r[2]) or any(v >= 5 for v in r[3])):
-                    ck.oracle_fail("dynamic-foreach-not-applied-to-current-list", case, r, "l[*] < 10 and o[*].x < 5 over the lists as they are now")
+                if r[1] != "plain" and (any(v >= 10 for v in r[2]) or any(v >= 5 for v in r[3]) or any(v >= 10 for v in r[4]) or not 1 <= len(r[4]) <= 8):
+                    ck.oracle_fail("dynamic-foreach-not-applied-to-current-list", case, r, "l[*] < 10, o[*].x < 5 and r[*] < 10 over the lists as they are after the call, 1 <= len(r) <= 8")
                     break
             else:
                 # a plain call is not bound by the dynamic constraints: over the history some plain call exceeds them
                 plain = [r for r in got if r[1] == "plain"]
-                if plain and all(all(v < 10 for v in r[2]) and all(v < 5 for v in r[3]) for r in plain):
+                if plain and all(all(v < 10 for v in r[2]) and all(v < 5 for v in r[3]) and all(v < 10 for v in r[4]) for r in plain):
                     ck.oracle_fail("inline-dynamic-constraint-left-a-trace", case, plain[:2], "plain calls are not bound by small()/osmall()")
                 if got != twin:
                     k = next(i for i in range(len(twin)) if got[i] != twin[i])
